@@ -401,6 +401,14 @@ def branches_on(body, local, after_bb=None, passthrough=PASS_OK):
         if names is None and adt in body_adts(body):
             pass
         labels["otherwise"] = t["otherwise"]
+        # `if let Err(e) = x {..}`: only one variant is listed, the other one is the `otherwise` edge
+        if names:
+            vals = set(names.values())
+            if len(vals) == 2:
+                have = [v for v in vals if v in labels]
+                if len(have) == 1:
+                    missing = (vals - set(have)).pop()
+                    labels[missing] = t["otherwise"]
         labels["_adt"] = adt
         out.append(Branch(bb, labels, via))
     return out
